@@ -197,4 +197,37 @@ example : tell01 (create01 [(10, 2, 0), (20, 2, 5), (30, 2, 10), (50, 3, 11)]) 7
 example : create01 [(10, 2, 0), (20, 2, 5), (30, 2, 10), (50, 3, 11)]
     = [⟨⟨10, 10, 2⟩, 2, [⟨0, 5, 2⟩]⟩, ⟨⟨50, 0, 0⟩, 3, [⟨11, 0, 0⟩]⟩] := by decide
 
+/-! ### floats (partial) -/
+
+/-- **Floats — partial.**  Full statement wanted: for every list of finite floats, every value decoded by
+`values()`/`value(i)` is within one stride-rounding of the value added, and the count is exact.
+Proved here: over exact rationals, with `math.isclose(v, exp, rel_tol=eps)` abstracted as an arbitrary predicate
+`close`, the decoded sequence has the same length as the input and each decoded value either *is* the value added or
+is the expected value `datum + stride·k` that `close` accepted for it.  Missing: IEEE-754 rounding of
+`v - datum`, `stride * k`, `datum + …` and of the repeated `v += stride` in `values()` (not modelled; the oracle
+checks an explicit rounding bound on the real implementation). -/
+theorem float_values_close_partial (close : Rat → Rat → Bool) (xs : List Rat) :
+    List.Forall₂ (F.Rel close) xs (F.rleValues (F.create close xs)) ∧ F.numValues (F.create close xs) = xs.length := by
+  obtain ⟨ys, h1, h2, h3⟩ := F.rleValues_foldl close xs []
+  unfold F.create
+  rw [h1, h3]
+  simpa [F.rleValues, F.numValues] using h2
+
+/-- with exact equality as the predicate the abstraction is an exact round trip (sanity of the abstraction). -/
+theorem float_values_exact (xs : List Rat) : F.rleValues (F.create (fun a b => decide (a = b)) xs) = xs := by
+  have h := (float_values_close_partial (fun a b => decide (a = b)) xs).1
+  have : ∀ (a b : List Rat), List.Forall₂ (F.Rel (fun a b => decide (a = b))) a b → b = a := by
+    intro a b hab
+    induction hab with
+    | nil => rfl
+    | cons h _ ih =>
+      rw [ih]; congr 1
+      rcases h with h | h
+      · exact h.symm
+      · exact (of_decide_eq_true h).symm
+  exact this _ _ h
+
+example : F.numValues (F.create (fun a b => decide (a - b ≤ 1/1000 ∧ b - a ≤ 1/1000)) [0, 1/2, 1, 3/2 + 1/2000, 5]) = 5 :=
+  (float_values_close_partial _ _).2
+
 end TD.C16
